@@ -433,6 +433,16 @@ func coreMonitors(out *Out, h int, e *Env, ix *coreIx, d *coreDump, markets []*c
 		}
 	}
 
+	// ---- C07: a market is active or inactive until it is resolved to declared / cancelled / aborted: no other status exists
+	for _, m := range d.markets {
+		switch m.Status {
+		case markettypes.MarketStatus_MARKET_STATUS_ACTIVE, markettypes.MarketStatus_MARKET_STATUS_INACTIVE,
+			markettypes.MarketStatus_MARKET_STATUS_RESULT_DECLARED, markettypes.MarketStatus_MARKET_STATUS_CANCELED, markettypes.MarketStatus_MARKET_STATUS_ABORTED:
+		default:
+			failOnce(out, h, "C07", "status_defined", "status-outside-the-life-cycle", m.UID, fmt.Sprintf("market %d has status %d (resolution ts %d, winners %v): neither open nor one of the three final statuses", uidN(m.UID), int32(m.Status), m.ResolutionTS, m.WinnerOddsUIDs))
+		}
+	}
+
 	// ---- C07: a market reaches a resolved status only through a resolution message that succeeded
 	for _, m := range d.markets {
 		if !isResolvedStatus(m.Status) {
